@@ -1,5 +1,8 @@
 import Hertz.Proofs.Shutdown
 import Hertz.Proofs.ShutdownSpecRefine
+import Hertz.Proofs.ShutdownSpecFull
+import Hertz.Proofs.ShutdownSpecBounded
+import Hertz.Proofs.ShutdownSpecPrompt
 import Hertz.Gen.Shutdown
 /-!
 # C18 — graceful shutdown lets in-flight requests finish and bounds the wait
@@ -310,35 +313,50 @@ example : (step { exitWait := 5 } { (init 0) with win := .deferred .nil, dl := 5
 inverse of the driver's `obsActs`: `listen ↦ L`, `accept ↦ A c`, `reqArrive ↦ Q c k rc`,
 `handlerRet ↦ X c k b`, `clientRead ↦ R c k cl true`, `shutCall ↦ S k`, `callerRet ↦ T k err`,
 `hookStart/End ↦ HS/HE j`, dials, `B/C/E`; every other step is unobservable; time stamp = model clock).
-`allOk okListen` is the environment discipline "`Shutdown` is only called once the listener exists"
-(what the harness does; it excludes the known finding *Shutdown before Listen* and implies
-`lnSkipped = false`, the hypothesis of `no_accept_after_shutdown_partial`).  The theorems below are
-about the very functions of `Hertz.ShutdownSpec` the driver evaluates on the REAL server's events. -/
+`allOk okWin` is the environment discipline "no CAS of a `Shutdown` caller succeeds in the window between
+`MarkAsRunning` and the creation of the listener": it excludes exactly the known finding *Shutdown before
+Listen* (and implies `lnSkipped = false`, the hypothesis of `no_accept_after_shutdown_partial`).  `Shutdown` may
+be called at any time, in particular on an engine that has not been started and is started later.  The former
+discipline `okListen` ("`Shutdown` is only called once the listener exists", what the harness does) is a
+special case (`okListen_okWin`).  The theorems below are about the very functions of `Hertz.ShutdownSpec` the
+driver evaluates on the REAL server's events. -/
 section spec
 open Hertz.ShutdownSpec
 
-/-- **close_after_shutdown, trace form without ghosts.**  After the first `HS`/`T` event no handler exit
+/-- a run that respects `okListen` respects `okWin` -/
+theorem okListen_okWin (cfg : Cfg) (n : Nat) (acts : List Act) (s : State)
+    (hr : run cfg (init n) acts = some s) (hok : allOk okListen cfg (init n) acts = true) :
+    allOk okWin cfg (init n) acts = true :=
+  allOk_okListen_okWin cfg acts (inv_init n) (si1_init n) (callGuard_init n) hr hok
+
+example : allOk okListen { exitWait := 5 } (init 0) [.init, .markRunning, .listen, .shutCall, .shutLoad 0, .shutCas 0] = true ∧
+    allOk okWin { exitWait := 5 } (init 0) [.shutCall, .init, .markRunning, .listen, .shutLoad 0, .shutCas 0] = true ∧
+    allOk okWin { exitWait := 5 } (init 0) [.init, .markRunning, .shutCall, .shutLoad 0, .shutCas 0] = false := by decide
+
+/-- **close_after_shutdown, trace form without ghosts.**  After the first flip witness (`HS`, a `T` other than
+`errStatusNotRunning`, or an `errStatusNotRunning` given to a call made after `L`) no handler exit
 `X c k` is followed by a complete response `R c k` lacking `Connection: close` — for every run, every
 schedule, any number of connections / callers / hooks. -/
 theorem obs_close_after_shutdown (cfg : Cfg) (n : Nat) (acts : List Act) (s : State)
-    (hr : run cfg (init n) acts = some s) (hok : allOk okListen cfg (init n) acts = true) :
+    (hr : run cfg (init n) acts = some s) (hok : allOk okWin cfg (init n) acts = true) :
     closeAfterShutdown (obsRun cfg (init n) acts).toArray = [] :=
   obs_closeAfterShutdown (fun _ _ h => h) hr hok
 
 /-- **no_accept_after_shutdown, trace form.** -/
 theorem obs_no_accept_after_shutdown (cfg : Cfg) (n : Nat) (acts : List Act) (s : State)
-    (hr : run cfg (init n) acts = some s) (hok : allOk okListen cfg (init n) acts = true) :
+    (hr : run cfg (init n) acts = some s) (hok : allOk okWin cfg (init n) acts = true) :
     noAcceptAfter (obsRun cfg (init n) acts).toArray = [] :=
   obs_noAcceptAfter (fun _ _ h => h) hr hok
 
-/-- **second_shutdown_errors, trace form**: a call made after some call returned gets
-`errStatusNotRunning`; a call that is alone until it returns gets `nil` — unless the 30 s cap of
-`transport.Shutdown` fires (`hto`; see `spec_first_call_timeout_fails_at`). -/
-theorem obs_second_shutdown_errors (cfg : Cfg) (n : Nat) (acts : List Act) (s : State)
-    (hr : run cfg (init n) acts = some s) (hok : allOk okListen cfg (init n) acts = true)
-    (hto : ∀ k, ¬ Has (obsRun cfg (init n) acts) (.T k "timeout")) :
-    errorsReported (obsRun cfg (init n) acts).toArray = [] :=
-  obs_errorsReported (fun _ _ h => h) hr hok hto
+/-- **second_shutdown_errors, trace form**: a call that returns before the listener answered, or that was
+made after a return showing that the status had flipped, gets `errStatusNotRunning`; a call made on the
+listening engine that is alone until it returns gets `nil` — or `errShutdownTimeout`, but
+only when it has lasted longer than the 30 s cap of `transport.Shutdown` (the clause was repaired for
+that case, see `spec_accepts_cap_timeout`; the former hypothesis "no timeout is observed" is gone). -/
+theorem obs_second_shutdown_errors (p : Params) (cfg : Cfg) (n : Nat) (acts : List Act) (s : State)
+    (hr : run cfg (init n) acts = some s) (hok : allOk okWin cfg (init n) acts = true) (hp : ParamsOk p cfg n) :
+    errorsReported p (obsRun cfg (init n) acts).toArray = [] :=
+  obs_errorsReported (fun _ _ h => h) hr hok p (obs_timeout_late (fun _ _ h => h) hr hok hp)
 
 /-- **inflight_complete, trace form**: if at the end every client has read the responses to the
 requests that reached a handler (`Settled`: the run is complete on the client side), every `Q c k` is
@@ -349,86 +367,256 @@ theorem obs_inflight_complete (cfg : Cfg) (n : Nat) (acts : List Act) (s : State
     inflightComplete (obsRun cfg (init n) acts).toArray = [] :=
   obs_inflightComplete hr hset
 
-/-- **run_satisfies_spec (partial).**  For every run of the model that respects `okListen`, ends
-client-complete and shows no `errShutdownTimeout`, four of the eight clauses of
-`ShutdownSpec.violations` are proved empty; what `violations` can still report is exactly the
-remaining four clauses (see TODO-OPEN). -/
+/-- **no spurious close, trace form**: a response read before any `Shutdown` call carries
+`Connection: close` only if its request (`Q c k true`) or its handler (`X c k true`) asked for it. -/
+theorem obs_no_spurious_close (cfg : Cfg) (n : Nat) (acts : List Act) (s : State)
+    (hr : run cfg (init n) acts = some s) (hok : allOk okWin cfg (init n) acts = true) :
+    noSpuriousClose (obsRun cfg (init n) acts).toArray = [] :=
+  obs_noSpuriousClose (fun _ _ h => h) hr hok
+
+/-- **hooks_started / hooks_waited / inflight_waited, trace form**: once a call returned `nil`, every
+registered hook has an `HS` event (for runs that leave no hook goroutine unscheduled, `HooksStarted`);
+and if that call returned more than 2 ms before `ExitWaitTimeout` had elapsed, every hook had ended
+(`HE`) and every entered handler had returned (`X`) before the return.  No scheduling discipline. -/
+theorem obs_hooks_run (p : Params) (cfg : Cfg) (n : Nat) (acts : List Act) (s : State)
+    (hr : run cfg (init n) acts = some s) (hok : allOk okWin cfg (init n) acts = true) (hp : ParamsOk p cfg n)
+    (hst : HooksStarted s) : hooksRun p (obsRun cfg (init n) acts).toArray = [] :=
+  obs_hooksRun (fun _ _ h => h) hr hok hp hst
+
+/-- **conns_waited, trace form** (new clause): after a `nil` return more than 2 ms before the deadline no
+request enters a handler any more — every connection was gone when the call returned (`active = 0`),
+and none is accepted afterwards. -/
+theorem obs_conns_waited (p : Params) (cfg : Cfg) (n : Nat) (acts : List Act) (s : State)
+    (hr : run cfg (init n) acts = some s) (hok : allOk okWin cfg (init n) acts = true) (hp : ParamsOk p cfg n) :
+    connsWaited p (obsRun cfg (init n) acts).toArray = [] :=
+  obs_connsWaited (fun _ _ h => h) hr hok hp
+
+/-- **shutdown_bounded, trace form**: under the scheduling discipline `okSched` (the clock advances only
+while the winner of the CAS is blocked and not beyond the instant that wakes it, no other caller is
+between its call and its return, no connection goroutine has an internal step to take), in a run in
+which every call has returned (`CallersDone`), every `S k` is followed by a `T k`, and every such return
+comes at most `ExitWaitTimeout + tick` (+ slack) after the call. -/
+theorem obs_shutdown_bounded (p : Params) (cfg : Cfg) (n : Nat) (acts : List Act) (s : State)
+    (hr : run cfg (init n) acts = some s) (hok : allOk okSched cfg (init n) acts = true) (hp : ParamsOk p cfg n)
+    (hfin : CallersDone s) : bounded p (obsRun cfg (init n) acts).toArray = [] :=
+  obs_bounded hp hr hok hfin
+
+/-- **run_satisfies_spec (without scheduling discipline).**  For every run of the model that respects
+`okWin`, ends client-complete (`Settled`) and leaves no hook goroutine unscheduled, every clause of
+`ShutdownSpec.violations` that does not bound a duration is empty; what remains are the two wall-clock
+clauses, which need the discipline `okSched` (`run_satisfies_spec`). -/
 theorem run_satisfies_spec_partial (p : Params) (cfg : Cfg) (n : Nat) (acts : List Act) (s : State)
-    (hr : run cfg (init n) acts = some s) (hok : allOk okListen cfg (init n) acts = true) (hset : Settled s)
-    (hto : ∀ k, ¬ Has (obsRun cfg (init n) acts) (.T k "timeout")) :
+    (hr : run cfg (init n) acts = some s) (hok : allOk okWin cfg (init n) acts = true) (hp : ParamsOk p cfg n)
+    (hset : Settled s) (hst : HooksStarted s) :
     violations p (obsRun cfg (init n) acts).toArray =
-      noSpuriousClose (obsRun cfg (init n) acts).toArray ++ bounded p (obsRun cfg (init n) acts).toArray ++
-      hooksRun p (obsRun cfg (init n) acts).toArray ++ prompt p (obsRun cfg (init n) acts).toArray := by
+      bounded p (obsRun cfg (init n) acts).toArray ++ prompt p (obsRun cfg (init n) acts).toArray := by
   unfold violations
   rw [obs_inflight_complete cfg n acts s hr hset, obs_close_after_shutdown cfg n acts s hr hok,
-    obs_no_accept_after_shutdown cfg n acts s hr hok, obs_second_shutdown_errors cfg n acts s hr hok hto]
+    obs_no_spurious_close cfg n acts s hr hok, obs_no_accept_after_shutdown cfg n acts s hr hok,
+    obs_second_shutdown_errors p cfg n acts s hr hok hp, obs_hooks_run p cfg n acts s hr hok hp hst,
+    obs_conns_waited p cfg n acts s hr hok hp]
   simp
 
-/-- non-vacuity: a request in flight across a shutdown with a hook, a second call, a late dial;
-the run respects `okListen`, ends `Settled`, shows no timeout, and its projection has 14 events -/
-def specDemo : List Act := [.init, .markRunning, .listen, .accept, .reqArrive 0 false, .shutCall, .shutLoad 0, .shutCas 0,
+theorem allOk_okSched_okWin (cfg : Cfg) : ∀ (acts : List Act) (s : State), allOk okSched cfg s acts = true →
+    allOk okWin cfg s acts = true
+  | [], _, _ => rfl
+  | a :: t, s, h => by
+    simp only [allOk, Bool.and_eq_true] at h ⊢
+    refine ⟨okSched_okWin s a h.1, ?_⟩
+    cases hs : step cfg s a with
+    | none => rfl
+    | some s' => simp only [hs] at h; exact allOk_okSched_okWin cfg t s' h.2
+
+/-- **prompt, trace form**: under the scheduling discipline `okSched`, if the call that returned `nil` did not
+return early, then it returned at most one ticker period after the last of: its own call, the end of the last
+hook, the end of the last connection (client saw EOF, or closed the idle connection) — provided all of these
+ended at all.  Nothing left to wait for ⇒ `Shutdown` does not sit out the exit wait. -/
+theorem obs_shutdown_prompt (p : Params) (cfg : Cfg) (n : Nat) (acts : List Act) (s : State)
+    (hr : run cfg (init n) acts = some s) (hok : allOk okSched cfg (init n) acts = true) (hp : ParamsOk p cfg n) :
+    prompt p (obsRun cfg (init n) acts).toArray = [] :=
+  obs_prompt hp hr hok
+
+/-- **run_satisfies_spec.**  The whole trace specification that the driver evaluates on the event sequence of
+the REAL server holds of the observable projection of EVERY run of the interleaving model — any number of
+connections, callers, hooks, any exit wait, every interleaving — that
+* respects `okSched`: no CAS is won before the listener exists (`okWin`; excludes exactly the known finding), and
+  the clock advances only while no goroutine can move on its own (needed by the two wall-clock clauses only, see
+  `run_satisfies_spec_partial`),
+* is complete: every client has read its responses (`Settled`), every hook goroutine has been scheduled
+  (`HooksStarted`), every `Shutdown` call has returned (`CallersDone`),
+and for parameters that describe the model's configuration (`ParamsOk`). -/
+theorem run_satisfies_spec (p : Params) (cfg : Cfg) (n : Nat) (acts : List Act) (s : State)
+    (hr : run cfg (init n) acts = some s) (hok : allOk okSched cfg (init n) acts = true) (hp : ParamsOk p cfg n)
+    (hset : Settled s) (hst : HooksStarted s) (hfin : CallersDone s) :
+    violations p (obsRun cfg (init n) acts).toArray = [] := by
+  rw [run_satisfies_spec_partial p cfg n acts s hr (allOk_okSched_okWin cfg acts _ hok) hp hset hst,
+    obs_shutdown_bounded p cfg n acts s hr hok hp hfin, obs_shutdown_prompt p cfg n acts s hr hok hp]
+  rfl
+
+/-- non-vacuity: a request in flight across a shutdown with a hook, the clock advancing while the
+handler runs / while the winner waits for its first tick / between the calls, a second call, a late dial;
+the run respects `okSched`, ends `Settled` with all callers returned and all hooks started, and its
+projection has 14 events -/
+def specDemo : List Act := [.init, .markRunning, .listen, .accept, .reqArrive 0 false, .advance 5, .shutCall, .shutLoad 0, .shutCas 0,
   .shutSpawn, .hookStart 0, .shutCloseLn, .handlerRet 0 false, .exitCheck 0, .writeResp 0, .clientRead 0 true, .connGone 0,
-  .clientEof 0, .hookEnd 0, .advance 10, .shutTick1, .shutFinish, .callerRet 0 .nil, .shutCall, .shutLoad 1,
+  .clientEof 0, .hookEnd 0, .advance 10, .shutTick1, .shutFinish, .callerRet 0 .nil, .advance 3, .shutCall, .shutLoad 1,
   .callerRet 1 .notRunning, .dialStart, .dialProbe 0, .dialEnd 0 false]
 
-example : allOk okListen { exitWait := 50 } (init 1) specDemo = true ∧
+def specDemoParams : Params := { exitWait := 50, tick := 10, slack := 0, nHooks := 1, maxWait := 30000 }
+
+example : allOk okSched { exitWait := 50 } (init 1) specDemo = true ∧
     (run { exitWait := 50 } (init 1) specDemo).map (fun s => decide (∀ cn ∈ s.conns, cn.acked = cn.started)) = some true ∧
+    (run { exitWait := 50 } (init 1) specDemo).map (fun s => (s.callers, s.hooks)) = some ([.finished .nil, .finished .notRunning], [.done]) ∧
     (obsRun { exitWait := 50 } (init 1) specDemo).length = 14 ∧
-    (obsRun { exitWait := 50 } (init 1) specDemo).all (fun e => e.ev != .T 0 "timeout" && e.ev != .T 1 "timeout") = true := by
+    ((obsRun { exitWait := 50 } (init 1) specDemo).map (·.t)).getLast? = some 18 := by
+  decide
+example : ParamsOk specDemoParams { exitWait := 50 } 1 := ⟨rfl, by decide, rfl, by decide⟩
+example : violations specDemoParams (obsRun { exitWait := 50 } (init 1) specDemo).toArray = [] := by decide
+
+/-- non-vacuity for the situation the former discipline excluded: `Shutdown` on an engine that has not been
+started (returns `errStatusNotRunning`), then `Run`, a keep-alive exchange, and a real shutdown; and a call made
+before `Run` whose status check is delayed until the engine listens (it wins) -/
+def earlyDemo : List Act := [.shutCall, .shutLoad 0, .callerRet 0 .notRunning, .advance 2, .init, .markRunning, .listen, .accept,
+  .reqArrive 0 false, .advance 3, .handlerRet 0 false, .exitCheck 0, .writeResp 0, .clientRead 0 false, .advance 4,
+  .shutCall, .shutLoad 1, .shutCas 1, .shutSpawn, .shutCloseLn, .peerClose 0, .connDrop 0, .connGone 0, .advance 10,
+  .shutTick1, .shutFinish, .callerRet 1 .nil]
+
+example : allOk okSched { exitWait := 50 } (init 0) earlyDemo = true ∧
+    (run { exitWait := 50 } (init 0) earlyDemo).map (fun s => decide (∀ cn ∈ s.conns, cn.acked = cn.started)) = some true ∧
+    (run { exitWait := 50 } (init 0) earlyDemo).map (fun s => (s.callers, s.hooks)) = some ([.finished .notRunning, .finished .nil], []) ∧
+    violations { exitWait := 50, tick := 10, slack := 0, nHooks := 0 } (obsRun { exitWait := 50 } (init 0) earlyDemo).toArray = [] := by
   decide
 
-/-- The hypothesis `okListen` is needed — the spec clause is FALSE of a model run without it: a
-`Shutdown` on an engine that has not started returns `errStatusNotRunning` (a `T` event, which
-`closeAfterShutdown` takes as proof that the status has flipped); the engine then starts and serves a
-keep-alive response.  (A weakness of the SPEC predicate, not of hertz: the harness never calls
-`Shutdown` before the server answers, except in the scripted `c18race`.) -/
-theorem spec_close_after_shutdown_fails_at :
-    closeAfterShutdown (obsRun { exitWait := 5 } (init 0) [.shutCall, .shutLoad 0, .callerRet 0 .notRunning, .init, .markRunning,
-      .listen, .accept, .reqArrive 0 false, .handlerRet 0 false, .exitCheck 0, .writeResp 0, .clientRead 0 false]).toArray ≠ [] := by
+example : allOk okSched { exitWait := 50 } (init 0) [.shutCall, .init, .markRunning, .listen, .shutLoad 0, .shutCas 0, .shutSpawn,
+      .shutCloseLn, .advance 10, .shutTick1, .shutFinish, .callerRet 0 .nil] = true ∧
+    violations { exitWait := 50, tick := 10, slack := 0, nHooks := 0 } (obsRun { exitWait := 50 } (init 0) [.shutCall, .init,
+      .markRunning, .listen, .shutLoad 0, .shutCas 0, .shutSpawn, .shutCloseLn, .advance 10, .shutTick1, .shutFinish,
+      .callerRet 0 .nil]).toArray = [] := by
   decide
 
-/-- The hypothesis `hto` is needed — the clause "the first `Shutdown` of a running server returns nil"
-is FALSE of the model (and of the code it mirrors) when `ExitWaitTimeout` exceeds the 30 s
-`shutdownTimeout` of `standard.transport.Shutdown` and a connection stays busy: the call returns
-`errShutdownTimeout`.  (Here with `maxWait := 30`, `exitWait := 100` clock units.) -/
-theorem spec_first_call_timeout_fails_at :
-    errorsReported (obsRun { exitWait := 100, maxWait := 30 } (init 0) [.init, .markRunning, .listen, .accept, .reqArrive 0 false,
-      .shutCall, .shutLoad 0, .shutCas 0, .shutSpawn, .shutCloseLn, .advance 10, .shutTick1, .advance 40, .shutTickLoop,
-      .shutFinish, .callerRet 0 .timeout]).toArray ≠ [] := by
+/-! ### the three repairs of the spec predicate (it rejected legitimate behaviour), and what it still rejects -/
+
+/-- Repair 1 (`retFlipAt` / `flipAt`): a `Shutdown` on an engine that has not started returns
+`errStatusNotRunning`; that `T` event is no longer taken as proof that the status has left `running`.
+The run that the former predicate rejected (early call, then `Run`, then a keep-alive response) is accepted
+by the whole predicate; so is the same run followed by a real shutdown. -/
+theorem spec_accepts_early_shutdown :
+    violations { exitWait := 5, tick := 10, slack := 0, nHooks := 0 }
+      (obsRun { exitWait := 5 } (init 0) [.shutCall, .shutLoad 0, .callerRet 0 .notRunning, .init, .markRunning,
+        .listen, .accept, .reqArrive 0 false, .handlerRet 0 false, .exitCheck 0, .writeResp 0, .clientRead 0 false]).toArray = [] ∧
+    violations { exitWait := 5, tick := 10, slack := 0, nHooks := 0 }
+      (obsRun { exitWait := 5 } (init 0) [.shutCall, .shutLoad 0, .callerRet 0 .notRunning, .init, .markRunning,
+        .listen, .accept, .reqArrive 0 false, .handlerRet 0 false, .exitCheck 0, .writeResp 0, .clientRead 0 false,
+        .shutCall, .shutLoad 1, .shutCas 1, .shutSpawn, .shutCloseLn, .peerClose 0, .connDrop 0, .connGone 0, .advance 10,
+        .shutTick1, .shutFinish, .callerRet 1 .nil]).toArray = [] := by
+  decide
+
+/-- … and it still rejects what the clauses are meant to catch, also after an early `errStatusNotRunning`:
+a keep-alive response without `Connection: close` whose handler returned after a call returned `nil`, after
+a hook started, or after a call made on the listening engine got `errStatusNotRunning`; a second `nil`; a `nil`
+from an engine whose listener had not answered when the call returned. -/
+theorem spec_still_rejects_keepalive_after_flip :
+    closeAfterShutdown #[⟨.S 0, 0⟩, ⟨.T 0 "notrunning", 1⟩, ⟨.L, 2⟩, ⟨.A 0, 3⟩, ⟨.Q 0 0 false, 4⟩, ⟨.S 1, 5⟩, ⟨.T 1 "nil", 6⟩,
+      ⟨.X 0 0 false, 7⟩, ⟨.R 0 0 false true, 8⟩] ≠ [] ∧
+    closeAfterShutdown #[⟨.L, 2⟩, ⟨.A 0, 3⟩, ⟨.Q 0 0 false, 4⟩, ⟨.S 0, 5⟩, ⟨.HS 0, 6⟩, ⟨.X 0 0 false, 7⟩, ⟨.R 0 0 false true, 8⟩] ≠ [] ∧
+    closeAfterShutdown #[⟨.L, 2⟩, ⟨.A 0, 3⟩, ⟨.Q 0 0 false, 4⟩, ⟨.S 0, 5⟩, ⟨.S 1, 5⟩, ⟨.T 1 "notrunning", 6⟩, ⟨.X 0 0 false, 7⟩,
+      ⟨.R 0 0 false true, 8⟩] ≠ [] ∧
+    errorsReported { exitWait := 5, tick := 10, slack := 0, nHooks := 0 }
+      #[⟨.S 0, 0⟩, ⟨.T 0 "notrunning", 1⟩, ⟨.L, 2⟩, ⟨.S 1, 5⟩, ⟨.T 1 "nil", 6⟩, ⟨.S 2, 7⟩, ⟨.T 2 "nil", 8⟩] ≠ [] ∧
+    errorsReported { exitWait := 5, tick := 10, slack := 0, nHooks := 0 }
+      #[⟨.L, 2⟩, ⟨.S 0, 5⟩, ⟨.T 0 "nil", 6⟩, ⟨.S 1, 7⟩, ⟨.T 1 "nil", 8⟩] ≠ [] ∧
+    errorsReported { exitWait := 5, tick := 10, slack := 0, nHooks := 0 } #[⟨.S 0, 5⟩, ⟨.T 0 "nil", 6⟩] ≠ [] ∧
+    errorsReported { exitWait := 5, tick := 10, slack := 0, nHooks := 0 } #[⟨.S 0, 5⟩, ⟨.T 0 "nil", 6⟩, ⟨.L, 7⟩] ≠ [] := by
+  decide
+
+/-- Repair 2 (`errorsReported`): the first `Shutdown` of a running server may return `errShutdownTimeout`
+when it has lasted longer than the transport's cap (`ExitWaitTimeout` > 30 s and a connection that stays
+busy; here `maxWait := 30`, `exitWait := 100` clock units).  The run the former predicate rejected is
+accepted … -/
+theorem spec_accepts_cap_timeout :
+    errorsReported { exitWait := 100, tick := 10, slack := 0, nHooks := 0, maxWait := 30 }
+      (obsRun { exitWait := 100, maxWait := 30 } (init 0) [.init, .markRunning, .listen, .accept, .reqArrive 0 false,
+        .shutCall, .shutLoad 0, .shutCas 0, .shutSpawn, .shutCloseLn, .advance 10, .shutTick1, .advance 40, .shutTickLoop,
+        .shutFinish, .callerRet 0 .timeout]).toArray = [] := by
+  decide
+
+/-- … while a timeout (or any other error) from a first call that did not last that long is still rejected -/
+theorem spec_still_rejects_early_timeout :
+    errorsReported { exitWait := 100000000, tick := 10000, slack := 0, nHooks := 0 }
+      #[⟨.L, 0⟩, ⟨.S 0, 1000⟩, ⟨.T 0 "timeout", 5000000⟩] ≠ [] ∧
+    errorsReported { exitWait := 100000000, tick := 10000, slack := 0, nHooks := 0 }
+      #[⟨.L, 0⟩, ⟨.S 0, 1000⟩, ⟨.T 0 "other", 40000000⟩] ≠ [] := by
+  decide
+
+/-- Repair 3 (`prompt`, `idleClose`): a client that hangs up while its request is in the handler does not end
+the connection for the server; `Shutdown` rightly waits for the handler (here: to the deadline).  The run the
+former predicate rejected is accepted … -/
+theorem spec_accepts_close_while_handling :
+    prompt { exitWait := 1000, tick := 10, slack := 0, nHooks := 0 }
+      (obsRun { exitWait := 1000 } (init 0) [.init, .markRunning, .listen, .accept, .reqArrive 0 false, .peerClose 0,
+        .shutCall, .shutLoad 0, .shutCas 0, .shutSpawn, .shutCloseLn, .advance 10, .shutTick1, .advance 990, .shutCtxDone,
+        .shutFinish, .callerRet 0 .nil]).toArray = [] := by
+  decide
+
+/-- … while a `Shutdown` that sits out the exit wait although the only connection was idle and had been closed by
+its client long before (or had been closed by the server, `E`) is still rejected -/
+theorem spec_still_rejects_idle_wait :
+    prompt { exitWait := 1000000, tick := 10000, slack := 1000, nHooks := 0 }
+      #[⟨.L, 0⟩, ⟨.A 0, 10⟩, ⟨.Q 0 0 false, 20⟩, ⟨.X 0 0 false, 30⟩, ⟨.R 0 0 false true, 40⟩, ⟨.S 0, 1000⟩, ⟨.C 0, 2000⟩,
+        ⟨.T 0 "nil", 1001000⟩] ≠ [] ∧
+    prompt { exitWait := 1000000, tick := 10000, slack := 1000, nHooks := 0 }
+      #[⟨.L, 0⟩, ⟨.A 0, 10⟩, ⟨.S 0, 1000⟩, ⟨.E 0, 2000⟩, ⟨.T 0 "nil", 1001000⟩] ≠ [] := by
+  decide
+
+/-- the other clauses are untouched: an accept after `Shutdown` returned, a truncated response to an in-flight
+request, a spurious close, a hook that never started, a return that is too late are rejected as before; the new
+clause rejects a request served after an early return -/
+theorem spec_still_rejects_others :
+    noAcceptAfter #[⟨.L, 0⟩, ⟨.S 0, 1⟩, ⟨.T 0 "nil", 2⟩, ⟨.A 0, 3⟩] ≠ [] ∧
+    inflightComplete #[⟨.L, 0⟩, ⟨.A 0, 1⟩, ⟨.Q 0 0 false, 2⟩, ⟨.S 0, 3⟩, ⟨.X 0 0 false, 4⟩, ⟨.R 0 0 true false, 5⟩, ⟨.T 0 "nil", 6⟩] ≠ [] ∧
+    noSpuriousClose #[⟨.L, 0⟩, ⟨.A 0, 1⟩, ⟨.Q 0 0 false, 2⟩, ⟨.X 0 0 false, 4⟩, ⟨.R 0 0 true true, 5⟩] ≠ [] ∧
+    hooksRun { exitWait := 1000000, tick := 10000, slack := 1000, nHooks := 1 } #[⟨.L, 0⟩, ⟨.S 0, 1⟩, ⟨.T 0 "nil", 20000⟩] ≠ [] ∧
+    bounded { exitWait := 1000000, tick := 10000, slack := 1000, nHooks := 0 } #[⟨.L, 0⟩, ⟨.S 0, 1⟩, ⟨.T 0 "nil", 2000000⟩] ≠ [] ∧
+    connsWaited { exitWait := 1000000, tick := 10000, slack := 1000, nHooks := 0 }
+      #[⟨.L, 0⟩, ⟨.A 0, 1⟩, ⟨.S 0, 10⟩, ⟨.T 0 "nil", 20000⟩, ⟨.Q 0 0 false, 30000⟩] ≠ [] := by
   decide
 
 end spec
 
 /-
-TODO-OPEN (not proved; checked per case by the correspondence harness):
- * PROVED now (Proofs/ShutdownSpecBase, ShutdownSpecInv, ShutdownSpecRefine): for the observable
-   projection `obsRun` of every `run` (every schedule), the clauses `inflightComplete` (given `Settled`),
-   `closeAfterShutdown`, `noAcceptAfter`, `errorsReported` (given no observed `errShutdownTimeout`) of
-   `Hertz.ShutdownSpec.violations` are empty, under the environment hypothesis `okListen`
-   (`run_satisfies_spec_partial`).  The ghost-free trace form of close_after_shutdown is
-   `obs_close_after_shutdown` (and `close_after_shutdown_trace` above).
- * STILL OPEN for `run_satisfies_spec`: the clauses `noSpuriousClose`, `hooksRun`, `bounded`, `prompt`.
-   - `noSpuriousClose`: safety, needs the event-sequence invariant "while no caller exists every
-     response's close flag is `rc || respClose` of its own `Q`/`X` events" (state side `SI1.winNone` is
-     proved: no caller ⇒ status = running while serving).
-   - `hooksRun`: (a) needs a completeness hypothesis (no hook left `spawned`); (b),(c) need the invariant
-     `S winK` time + exitWait ≤ dl; the state side (`GoneOrDl`, `Inv.retHooks`, `MI1.mHS/mHE`) is proved.
-   - `bounded`: a wall-clock statement; needs a promptness discipline for EVERY caller goroutine (not
-     only the winner as in `runPrompt`) plus "all callers finished"; `shutdown_bounded` gives the
-     winner's part (`t ≤ tcas + exitWait + tick`).
-   - `prompt`: FALSE of the model without a hypothesis on the peer: a client that closes (`C c`) while
-     its request is still in the handler lets `Shutdown` wait to the deadline although "all
-     connections were finished"; needs "peers close only connections without a request in flight" and
-     promptness of all connection goroutines.
- * The projection drops what the model has no behaviour for (`F`, `FN`, truncated `R`, `RR`), and
-   stamps events with the model clock; the driver accepts a real trace if SOME run has that projection
-   up to time stamps (`e.t ≤ now`), so "model accepts ⇒ spec holds" is closed for the four clauses above
-   on traces whose time stamps are those of the witness run (the four clauses do not read time stamps).
- * liveness under fairness: `shutdown_never_stuck` + `caller_never_blocks` say every phase of every
-   `Shutdown` call has an enabled step once its timer has fired (so a maximal run in which the clock
-   passes `dl` cannot end with a caller short of `finished`); `shutdown_bounded` bounds the return time
-   under `runPrompt`.  Not proved: the statement over infinite fair schedules / "every maximal finite
-   run ends with all callers finished", which needs a maximality predicate over `run`.
+TODO-OPEN (what is proved now, what remains):
+ * PROVED (Proofs/ShutdownSpecBase, …Inv, …Refine, …Sched, …Full, …Bounded, …Prompt): `run_satisfies_spec` —
+   `Hertz.ShutdownSpec.violations p (obsRun …) = []`, ALL NINE clauses (`inflightComplete`, `closeAfterShutdown`,
+   `noSpuriousClose`, `noAcceptAfter`, `bounded`, `errorsReported`, `hooksRun`, the new `connsWaited`, `prompt`),
+   for the observable projection of every run of the model, under these explicit hypotheses (all satisfied by
+   `specDemo` and `earlyDemo`):
+     - `allOk okSched`: (a) `okWin` — no CAS of a `Shutdown` caller succeeds between `MarkAsRunning` and `Listen`
+       (the known finding; needed by `noAcceptAfter`, `hooksRun`, `connsWaited`, `errorsReported`, `prompt`);
+       (b) `canTick` — the clock advances only while the winner is blocked and not beyond its wake-up, no caller is
+       between call and return, no connection goroutine has an internal step pending (needed ONLY by the two
+       wall-clock clauses `bounded` and `prompt`; `run_satisfies_spec_partial` is the statement without (b));
+     - completeness of the run: `Settled` (clients have read their responses; `inflightComplete`), `HooksStarted`
+       (no hook goroutine left unscheduled; `hooksRun`), `CallersDone` (every call has returned; `bounded`);
+     - `ParamsOk p cfg n` (the spec's parameters are the model's).
+ * The three places where the spec predicate rejected legitimate model runs are repaired in Spec/Shutdown.lean
+   (`retFlipAt`/`flipAt`, the `errShutdownTimeout` exception of `errorsReported` + `runningAtRet`, `idleClose` in
+   `prompt`); `spec_accepts_*` / `spec_still_rejects_*` show acceptance of the former witnesses and rejection of
+   bad traces of each kind; the universal theorem now covers calls made before the engine runs (`okWin` instead of
+   `okListen`) and the 30 s cap (no `hto` hypothesis any more).
+ * STILL OPEN
+   - the gap between the driver's acceptance and the theorem: the projection never contains `F`, `FN`, truncated
+     `R`, `RR` (the driver maps them to no model step), and stamps events with the model clock, whereas the driver
+     only forces `now ≥ e.t` when it replays a real trace; "driver accepts the trace ⇒ some run has exactly this
+     projection (with these time stamps)" is not a theorem.  The time-free clauses do not depend on stamps.
+   - real schedules do not satisfy `canTick` literally (goroutines are delayed by the Go scheduler); the 1 s `slack`
+     of the driver's `Params` stands for that and is not modelled (`bounded`/`prompt` are proved with slack 0).
+   - remaining imprecision of the spec predicate, harmless for the harness: `errorsReported` gives no verdict on a
+     call that overlaps another call (`otherCalled`); `prompt` gives no verdict when a client hung up on a
+     connection with an unanswered request (`idleClose`), or when some connection never ended.
+   - liveness under fairness: `shutdown_never_stuck` + `caller_never_blocks` say every phase of every `Shutdown`
+     call has an enabled step once its timer has fired; `CallersDone`/`HooksStarted`/`Settled` are hypotheses here.
+     Not proved: "every maximal finite run (whose clock passes `dl`) ends with all callers finished", which needs a
+     maximality predicate over `run`.
 -/
 
 end Hertz.Props.C18
